@@ -206,6 +206,10 @@ def items(tier, seed):
           for k2 in KINDS:
             for o2 in range(len(OPTS)):
               yield ('pair', k1, o1, k2, o2, st, sh)
+  for k in KINDS:
+    for o in range(len(OPTS)):
+      for s1, s2 in (('DISABLED', 'UNSPECIFIED'), ('DISABLED', 'ENABLED'), ('ENABLED', 'DISABLED')):
+        yield ('spair', k, o, s1, s2, 'kwargs')
   for target in ('function', 'bound_method', 'nested'):
     yield ('faults', target, 'stage')
     stride = 8 if tier == 'quick' else 1
@@ -491,6 +495,14 @@ def check_row(item, double_call=False, reset=True, remembered=False):
   return viol, (got, was)
 
 
+def check_status_pair(item):
+  """First call in a DISABLED context (runs unconverted: a decision about the CONTEXT, not about the callable), then the
+  same kind of callable under the second status: must be decided as if nothing had happened."""
+  _, k, o, s1, s2, shape = item
+  check_row(('row', k, shape, o, s1))
+  return check_row(('row', k, shape, o, s2), reset=False, remembered=(k in ('local_generator', 'mangled_method') and s1 != 'DISABLED'))
+
+
 def check_pair(item):
   """Two calls through the wrapper without resetting the caches in between: whatever the first call left behind (conversion
   cache, allow-list cache, state of the callable), the second call must behave exactly as it does on its own."""
@@ -703,6 +715,12 @@ def check(item):
     out = [util.V('%s|module=%s|opts=%s|%s' % (k, item[1], OPTS[item[2]], item[3]), '%s: %s' % (k, m), item) for k, m in viol]
     return {'viol': out, 'n': {'evaluations': 1, 'table_rows': 1}, 'outcome': repr(item), 'nontrivial': repr(item),
             'sample': {'row': list(item)}}
+  if item[0] == 'spair':
+    viol, obs = check_status_pair(item)
+    out = [util.V('after-%s-under-%s|%s|%s|opts=%s|%s' % (item[1], item[3], k, item[1], OPTS[item[2]], item[4]),
+                  'after a call of the same %s while the status was %s: %s: %s' % (item[1], item[3], k, m), item) for k, m in viol]
+    return {'viol': out, 'n': {'evaluations': 2, 'call_pairs': 1}, 'outcome': repr((item, obs)), 'nontrivial': repr(item),
+            'sample': {'pair': list(item), 'observed': repr(obs)[:200]}}
   if item[0] == 'pair':
     viol, obs = check_pair(item)
     out = [util.V('after-%s-%s|%s|%s|%s|opts=%s|%s' % (item[1], OPTS[item[2]], k, item[3], item[6], OPTS[item[4]], item[5]),
